@@ -204,9 +204,12 @@ pub struct InstrReader {
     calls: usize,
     fault: Option<ReadFault>,
     pulled: Arc<AtomicU64>,
-    /// endless tail: after `data`, repeat this forever (until budget)
+    /// endless tail: after `data`, repeat this forever (until budget); every b'#' in it is
+    /// replaced by the repetition counter
     tail: Option<Arc<Vec<u8>>>,
     tail_pos: usize,
+    tail_buf: Vec<u8>,
+    tail_count: u64,
     budget: u64,
     over_budget: Arc<AtomicBool>,
 }
@@ -255,10 +258,15 @@ impl Read for InstrReader {
             }
             let mut n = 0;
             while n < want {
-                let k = (want - n).min(t.len() - self.tail_pos);
-                buf[n..n + k].copy_from_slice(&t[self.tail_pos..self.tail_pos + k]);
+                if self.tail_pos >= self.tail_buf.len() {
+                    self.tail_buf = expand_tail(t, self.tail_count);
+                    self.tail_count += 1;
+                    self.tail_pos = 0;
+                }
+                let k = (want - n).min(self.tail_buf.len() - self.tail_pos);
+                buf[n..n + k].copy_from_slice(&self.tail_buf[self.tail_pos..self.tail_pos + k]);
                 n += k;
-                self.tail_pos = (self.tail_pos + k) % t.len();
+                self.tail_pos += k;
             }
             self.pulled.fetch_add(n as u64, Ordering::Relaxed);
             return Ok(n);
@@ -340,6 +348,8 @@ pub fn run_spec(spec: &RunSpec) -> (Outcome, RunExtra) {
                 pulled: pulled.clone(),
                 tail: tail.clone(),
                 tail_pos: 0,
+                tail_buf: Vec::new(),
+                tail_count: 0,
                 budget,
                 over_budget: over.clone(),
             }
@@ -366,6 +376,20 @@ pub fn run_spec(spec: &RunSpec) -> (Outcome, RunExtra) {
     let stderr = std::mem::take(&mut *err_buf.lock().unwrap());
     let stdin_opened = *opened.borrow();
     (Outcome { res, stdout, stderr, stdin_opened, bytes_pulled: pulled.load(Ordering::Relaxed) }, extra)
+}
+
+/// one repetition of an endless tail: every b'#' becomes the counter
+pub fn expand_tail(t: &[u8], count: u64) -> Vec<u8> {
+    let c = count.to_string();
+    let mut out = Vec::with_capacity(t.len() + 8);
+    for b in t {
+        if *b == b'#' {
+            out.extend_from_slice(c.as_bytes());
+        } else {
+            out.push(*b);
+        }
+    }
+    out
 }
 
 /// bytes -> printable escaped text for reports
